@@ -12,6 +12,8 @@
         begin/end_indep, sync, close, abort, create, open.
    Part 3 (Proofs_Reach3.v): put (collective, independent), fill_var_rec, the case analysis
         exec_step_preserves_inv, reachable_inv and the corollaries.
+   Part 4 (Proofs_Reach4.v): examples (a 23-command history, the corollaries instantiated on its
+        states) and the counterexamples that show why the contract step_ok is needed.
 
    No model definition is modified. *)
 From Pnc Require Import Base Gen_consts Header HeaderSpec Access Data Disk Move Fill Exec.
